@@ -245,13 +245,12 @@ theorem genuine_header_load (m : Meta) (s24 s32 s40 fhi gds bar : Nat) (pad code
   simp only [parse_renderHeader m s24 s32 s40 fhi gds bar (pad ++ code) h hf,
     renderHeader_drop m s24 s32 s40 fhi gds bar pad code hp]
 
-/-- **kd_roundtrip (what holds).** Parsing a descriptor laid out as the AMDGPU ABI lays it out
-returns LDS, private and kernarg sizes and the entry offset as stored; `ComputePgmRsrc1`
-is the stored **rsrc3**, `ComputePgmRsrc2` is the rewriting of the stored **rsrc1**,
-`ComputePgmRsrc3` is the reserved word at byte 40 — the loader reads the three words one
-slot early — the register counts are the granules of that "rsrc1", the kernarg-pointer
-enable is `kernarg_size > 0`, every other enable is false and `kernel_code_properties` is
-not read. For all field values in range. -/
+/-- **kd_roundtrip.** Parsing a descriptor laid out as the AMDGPU ABI lays it out returns LDS,
+private and kernarg sizes, the entry offset and the three `compute_pgm_rsrc` words from their
+ABI slots (rsrc3 @44, rsrc1 @48, rsrc2 @52; rsrc2 through the documented rewriting), the
+register counts are the granules of rsrc1, the kernarg-pointer enable is `kernarg_size > 0`,
+every other enable is false and `kernel_code_properties` is not read. For all field values
+in range. (The name is kept from the time the loader read the words one slot early.) -/
 theorem kd_roundtrip_partial (f : KdFields) (h : KdInRange f) :
     parseV5KernelDescriptor (renderKd f) = kdLoaded f ∧ (renderKd f).length = 64 :=
   ⟨parse_renderKd f h, renderKd_length f⟩
@@ -264,6 +263,19 @@ def C13_full : Prop :=
     (parseV5KernelDescriptor (renderKd f)).rsrc3 = f.rsrc3 ∧
     (parseV5KernelDescriptor (renderKd f)).rsrc2 = (fixRsrc2 (BitVec.ofNat 32 f.rsrc2) (decide (f.kernarg > 0))).toNat
 
+/-- **C13_full_holds.** With the repaired offsets the full statement holds for every descriptor. -/
+theorem C13_full_holds : C13_full := by
+  intro f h
+  rw [parse_renderKd f h]
+  exact ⟨rfl, rfl, rfl⟩
+
+/-- the same statement about the loader as it was before the repair -/
+def C13_full_before_fix : Prop :=
+  ∀ f : KdFields, KdInRange f →
+    (parseV5KernelDescriptorOld (renderKd f)).rsrc1 = f.rsrc1 ∧
+    (parseV5KernelDescriptorOld (renderKd f)).rsrc3 = f.rsrc3 ∧
+    (parseV5KernelDescriptorOld (renderKd f)).rsrc2 = (fixRsrc2 (BitVec.ofNat 32 f.rsrc2) (decide (f.kernarg > 0))).toNat
+
 /-- BitonicSort of amd/benchmarks/amdappsdk/bitonicsort/kernels_gfx942.hsaco -/
 def bitonicKd : KdFields :=
   { lds := 0, priv := 0, kernarg := 280, reserved12 := 0, entry := 0, reserved24 := 0, reserved32 := 0,
@@ -272,17 +284,21 @@ def bitonicKd : KdFields :=
 theorem bitonicKd_inRange : KdInRange bitonicKd := by
   constructor <;> decide
 
-/-- It is false of the current loader: for a shipped kernel's descriptor the loader returns
+/-- It was false of the loader before the repair: for a shipped kernel's descriptor it returned
 rsrc1 = 2 (the stored rsrc3) and rsrc2 = 0x00af09c4 (the stored rsrc1, rewritten). -/
-theorem C13_full_refuted : ¬ C13_full := by
+theorem C13_full_before_fix_refuted : ¬ C13_full_before_fix := by
   intro h
   have := (h bitonicKd bitonicKd_inRange).1
-  rw [parse_renderKd bitonicKd bitonicKd_inRange] at this
+  rw [parseOld_renderKd bitonicKd bitonicKd_inRange] at this
   revert this
   decide
 
+/-- the shipped descriptor now loads with its stored words: rsrc1 0x00af0041, rsrc3 2, rsrc2 0x84 → 0x984 -/
+example : ((parseV5KernelDescriptor (renderKd bitonicKd)).rsrc1, (parseV5KernelDescriptor (renderKd bitonicKd)).rsrc3,
+    (parseV5KernelDescriptor (renderKd bitonicKd)).rsrc2) = (0x00af0041, 2, 0x984) := by decide +kernel
+
 /-- The strict reading of the property — rsrc2 and the enable bits exactly as stored — fails
-even modulo the slot error, because of the deliberate rewriting: stored 0x84 becomes 0x984. -/
+because of the deliberate rewriting: stored 0x84 becomes 0x984. -/
 def C13_strict_full : Prop :=
   ∀ r : BitVec 32, ∀ b : Bool, fixRsrc2 r b = r
 
